@@ -10,11 +10,11 @@ RsRow(k, i) == LET g == G8Pow(2, i - k) IN
 \* gf_gen_cauchy1_matrix: row i >= k, column j: 1 / (i xor j)
 CauchyRow(k, i) == [j \in 1..k |-> G8Inv(i ^^ (j-1))]
 UnitRow(k, i) == [j \in 1..k |-> IF j = i + 1 THEN 1 ELSE 0]
-GenRow(be, k, i) == IF i < k THEN UnitRow(k, i) ELSE IF be = 4 THEN RsRow(k, i) ELSE CauchyRow(k, i)
+IsaGenRow(be, k, i) == IF i < k THEN UnitRow(k, i) ELSE IF be = 4 THEN RsRow(k, i) ELSE CauchyRow(k, i)
 
 \* isa_l_get_decode_matrix: rows of the first k survivors
 FirstK(k, n, missing) == SubSeq(SetToSortSeq((0..(n-1)) \ missing, <), 1, k)
-DecodeMatrix(be, k, n, missing) == LET f == FirstK(k, n, missing) IN [r \in 1..k |-> GenRow(be, k, f[r])]
+DecodeMatrix(be, k, n, missing) == LET f == FirstK(k, n, missing) IN [r \in 1..k |-> IsaGenRow(be, k, f[r])]
 SurvivorsInvertible(be, k, m, missing) ==
     /\ Cardinality((0..(k+m-1)) \ missing) >= k
     /\ Invertible(DecodeMatrix(be, k, k+m, missing), k, G8Mul, G8Inv)
